@@ -772,6 +772,25 @@ class C07(PropBase):
         callee = C6.parse_regs(f[4])
         mem = C6.mem_reader(4, int(f[5]), bytes.fromhex(f[6]) if f[6] != "-" else b"")
         fd, fpo, cfi = parse_recs(f[7:])
+        # c07_walk_frame_by_file_record, independent of any reference of the table ALGORITHM: a STACK WIN success (no STACK CFI
+        # record in the file) is the evaluation, as written, of some record of the file whose written range covers the address
+        if cfi is None and ans.startswith("S|") and len(fd) + len(fpo) > 1:
+            outs = []
+            undoc = False
+            for r in fd + fpo:
+                rg = mk_range(r["addr"], r["size"])
+                if rg is None or not (rg[0] <= lookup <= rg[1]):
+                    continue
+                try:
+                    o = ref_framedata(r, callee, mem, gcps) if r["ty"] == "4" else ref_fpo(r, callee, mem, gcps, hasgc)
+                except Undoc:
+                    undoc = True
+                    continue
+                if o is not None:
+                    outs.append("S|cfa=-|ra=-|regs=%s|" % ",".join("%s=%d" % kv for kv in sorted(o.items())))
+            if not undoc and not any(ans.startswith(w) for w in outs):
+                return ("STACK WIN success that is not the evaluation of any record of the file covering the address "
+                        "(c07_walk_frame_by_file_record): got %s, candidates %s" % (ans[:200], outs[:4]))
         kind, regs = ref_win(fd, fpo, lookup, callee, mem, gcps, hasgc)
         if kind == "win":
             want = "S|cfa=-|ra=-|regs=%s|" % ",".join("%s=%d" % kv for kv in sorted(regs.items()))
